@@ -157,7 +157,9 @@ impl MtuDiscovery {
             return false;
         }
 
-        self.current_mtu = self.black_hole_detector.min_mtu;
+        // Never raise the estimate here: it is below `min_mtu` only if the peer's
+        // `max_udp_payload_size` is, and that limit must keep being respected
+        self.current_mtu = self.current_mtu.min(self.black_hole_detector.min_mtu);
 
         if let Some(state) = &mut self.state {
             state.on_black_hole_detected(now);
